@@ -3,7 +3,7 @@
 EXTENDS FxpSystem
 CONSTANTS a, b, c
 ObjSeqDef == IF c \in Obj THEN <<a, b, c>> ELSE <<a, b>>
-ActsC20 == {"New", "Store", "SetItem", "SetItemFxp", "GetItem", "CtorLike", "Like", "DeepCopy", "Resize", "Reset", "SetCfg", "SetCfgBad", "BinOp", "Neg", "Assign", "RShiftKeep", "LShiftKeep", "Invert"}
+ActsC20 == {"New", "NewLike", "Store", "SetItem", "SetItemFxp", "GetItem", "CtorLike", "Like", "DeepCopy", "Resize", "Reset", "SetCfg", "SetCfgBad", "BinOp", "Neg", "Assign", "RShiftKeep", "LShiftKeep", "Invert"}
 ActsC20Neg == (ActsC20 \ {"Like"}) \cup {"LikeShallow"}
 ActsC04 == {"New1", "Store", "SetItem", "SetItemFxp", "GetItem", "CtorLike", "Reset", "BinOp", "BinOpOut", "Resize", "SetCfg", "Assign"}
 ActsC02 == {"New1", "Store", "SetItem", "GetItem", "CtorLike", "Like", "DeepCopy", "Resize", "BinOp", "Neg", "Assign", "SetCfg"}
